@@ -9,10 +9,14 @@ CONSTANTS
   MaxTbl = 2
   Lazy = TRUE
   Push = FALSE
+  Hosts <- Two
+  Links <- LinkAB
   Dialers <- OnlyA
   Servers <- OnlyB
+  Delays <- AllDelays
+  Waits <- AllWaits
 INIT Init
 NEXT Next
 VIEW View
 INVARIANTS TypeOK RightHandler
-PROPERTIES OpenBinds Agreement Dispatch OneHandler NoCommon RemovedNeverRuns CommonMeansSuccess KnowledgeSources FirstOpFree
+PROPERTIES OpenBinds Agreement Dispatch OneHandler NoCommon RemovedNeverRuns CommonMeansSuccess KnowledgeSources BooksApart FirstOpFree TimeFree
